@@ -154,7 +154,7 @@ func cmdCheck(args []string) int {
 	known := loadKnown()
 	e.known = map[string]*knownFinding{}
 	for i := range known {
-		if known[i].Property == prop || prop == "ALL" {
+		if prop == "ALL" || hasPropExact(strings.Split(known[i].Property, ","), prop) {
 			e.known[known[i].Obligation] = &known[i]
 		}
 	}
@@ -361,13 +361,9 @@ func cmdCheck(args []string) int {
 			violations++
 			path := writeConformReplay(prop, r, f)
 			if prop == "ALL" {
-				var ps []string
-				for _, h := range loadConform() {
-					for _, t := range h.Tests {
-						if t.Name == r.Test {
-							ps = t.Props
-						}
-					}
+				ps := f.props
+				if len(ps) == 0 {
+					ps = r.props
 				}
 				fmt.Printf("FAILED[%s] %s (bounded harness %s %s): %s\n", strings.Join(ps, ","), name, r.Test, f.Env, f.Msg)
 			} else {
@@ -479,7 +475,7 @@ func matchKnown(known []knownFinding, prop, obl string) *knownFinding {
 		if k.Status == "fixed" {
 			continue
 		}
-		if (k.Property == prop || prop == "ALL") && k.Obligation == obl {
+		if (prop == "ALL" || hasPropExact(strings.Split(k.Property, ","), prop)) && k.Obligation == obl {
 			return k
 		}
 	}
